@@ -37,7 +37,7 @@ package slug
 
 //@ func (*Packer).packWalkFn$1 -> (err)
 //@   sweep
-//@   replay packFifo:
+//@   replay packSelfLoop:
 //@   at-call os.Open C19.open-regular: modeRegular(fileMode(info)) || (resolved != nil && modeRegular(fileMode(resolved.info)))
 //@   requires pre.captured: p != nil && meta != nil && tarW != nil
 
